@@ -74,19 +74,24 @@ func fetch(
 	fetcher := options.getFetcher(exchg)
 	cids := make([]cid.Cid, 0, len(blks))
 	duplicates := make(map[cid.Cid]Block)
+	originals := make(map[cid.Cid]*unmarshalEntry)
+	requested := make(map[cid.Cid]Block, len(blks))
 	for _, blk := range blks {
 		cid := blk.CID() // memoize CID for reuse as it ain't free
 		cids = append(cids, cid)
+		requested[cid] = blk
 
 		// store the UnmarshalFn s.t. hasher can access it
 		// and fill in the Block
 		unmarshalFn := blk.UnmarshalFn(root)
-		_, exists := unmarshalFns.LoadOrStore(cid, &unmarshalEntry{UnmarshalFn: unmarshalFn})
+		entry := &unmarshalEntry{UnmarshalFn: unmarshalFn}
+		_, exists := unmarshalFns.LoadOrStore(cid, entry)
 		if exists {
 			// the unmarshalFn has already been stored for the cid
 			// means there is ongoing fetch happening for the same cid
 			duplicates[cid] = blk // so mark the Block as duplicate
 		} else {
+			originals[cid] = entry
 			// cleanup are by the original requester and
 			// only after we are sure we got the block
 			defer unmarshalFns.Delete(cid)
@@ -107,6 +112,16 @@ func fetch(
 		}
 
 		blk, ok := duplicates[bitswapBlk.Cid()]
+		if entry, original := originals[bitswapBlk.Cid()]; original {
+			// the block may have been re-announced by another Fetch through NotifyNewBlocks, in which
+			// case it reaches us without having been verified by the hasher with our UnmarshalFn
+			entry.Lock()
+			verified := entry.verified
+			entry.Unlock()
+			if !verified {
+				blk, ok = requested[bitswapBlk.Cid()], true
+			}
+		}
 		if ok {
 			// uncommon duplicate case: concurrent fetching of the same block.
 			// The block hasn't been invoked inside hasher verification,
@@ -176,6 +191,8 @@ var unmarshalFns sync.Map
 type unmarshalEntry struct {
 	sync.Mutex
 	UnmarshalFn
+	// verified is set once the hasher verified a block with the UnmarshalFn and populated the Block
+	verified bool
 }
 
 // hasher implements hash.Hash to be registered as custom multihash
@@ -236,6 +253,7 @@ func (h *hasher) write(data []byte) error {
 	if err != nil {
 		return fmt.Errorf("verifying and unmarshalling container data: %w", err)
 	}
+	entry.verified = true
 
 	// set the id as resulting sum
 	// it's required for the sum to match the requested ID
